@@ -217,6 +217,44 @@ var Fields = []FieldGen{
 		}
 		return of.NewRegMatchField(idx, v, nil), oxmNode(cNX1, uint8(idx), be32b(v), nil)
 	}},
+	{"NewMulitiRegMatch", true, func(g *G) (*of.MatchField, *spec.Node) {
+		// 1..3 masked pieces of one register merged into one field. What the merge makes of non-zero piece values
+		// is not written down anywhere (the code moves them by the difference of the pieces' offsets), so the
+		// pieces carry the value 0: the merged field is the register with value 0 under the union of the masks.
+		idx := g.Int("reg", 0, 15)
+		k := g.Int("pieces", 1, 3)
+		cuts := []int{0, 32}
+		if g.Bool("partial_cover") {
+			cuts = []int{g.Int("lo", 0, 15), g.Int("hi", 16, 32)}
+		}
+		var pieces []*of.MatchField
+		var union uint32
+		lo := cuts[0]
+		for i := 0; i < k && lo < cuts[1]; i++ {
+			hi := cuts[1]
+			if i < k-1 {
+				hi = g.Int(fmt.Sprintf("cut%d", i), lo+1, cuts[1])
+			}
+			for b := lo; b < hi; b++ {
+				union |= 1 << uint(b)
+			}
+			pieces = append(pieces, of.NewRegMatchField(idx, 0, of.NewNXRange(lo, hi-1)))
+			lo = hi
+		}
+		if len(pieces) > 1 && g.Bool("descending") {
+			for i, j := 0, len(pieces)-1; i < j; i, j = i+1, j-1 {
+				pieces[i], pieces[j] = pieces[j], pieces[i]
+			}
+		}
+		out := of.NewMulitiRegMatch(pieces...)
+		if len(out) != 1 {
+			panic(Refused{fmt.Sprintf("NewMulitiRegMatch of %d pieces of reg%d returned %d fields", len(pieces), idx, len(out))})
+		}
+		if union == 0xffffffff {
+			g.Label("merged_reg_pieces_cover_all_bits")
+		}
+		return out[0], oxmNode(cNX1, uint8(idx), be32b(0), be32b(union))
+	}},
 	{"NewTunMetadataField", true, func(g *G) (*of.MatchField, *spec.Node) {
 		idx := g.Int("idx", 0, 7)
 		n := 4 * g.Int("words", 1, 31)
